@@ -154,7 +154,16 @@ class Net:
                     ctl.setblocking(False)
                     b.setblocking(False)
                     proto = self.accept(host, att.index)
-                    await loop.create_connection(lambda: proto, sock=b)
+                    try:
+                        await loop.create_connection(lambda: proto, sock=b)
+                    except BaseException:
+                        # cancelled while the accessory end was being set up: the connection never existed
+                        ctl.close()
+                        if proto.transport is not None:
+                            proto.transport.abort()
+                        else:
+                            b.close()
+                        raise
                     att.outcome = "accept"
                     att.connected_host = host
                     return ctl
@@ -652,3 +661,57 @@ async def scenario_corrupt_frame(ctx, rng, t) -> None:
             ctx.violation("event-after-corruption-delivered", f"listener got {delivered}", replay)
     finally:
         await w.close()
+
+
+class ConnectOnceLog:
+    """Records every activation of SecureHomeKitConnection._connect_once (enter/exit in virtual time, outcome).
+
+    Installed on the class for the duration of a scenario (the harness wraps the real coroutine function; the
+    body that runs is the repository's). Also counts concurrent activations (C10 single-connector invariant).
+    """
+
+    def __init__(self, world: "World"):
+        self.world = world
+        self.activations: list[dict] = []
+        self.active = 0
+        self.max_active = 0
+
+    def install(self):
+        from aiohomekit.controller.ip import connection as conn_mod
+
+        self._cls = conn_mod.SecureHomeKitConnection
+        self._orig = self._cls._connect_once
+        log = self
+        orig = self._orig
+
+        async def _connect_once(conn_self):
+            loop = asyncio.get_running_loop()
+            rec = {"i": len(log.activations), "t0": loop.time(), "t1": None, "exc": None, "ok": False,
+                   "first_conn": len(log.world.accessory.conns), "net_attempt0": len(log.world.net.attempts)}
+            log.activations.append(rec)
+            log.active += 1
+            log.max_active = max(log.max_active, log.active)
+            try:
+                r = await orig(conn_self)
+                rec["ok"] = True
+                return r
+            except BaseException as ex:
+                rec["exc"] = type(ex).__name__
+                raise
+            finally:
+                log.active -= 1
+                rec["t1"] = loop.time()
+                rec["last_conn"] = len(log.world.accessory.conns)
+
+        self._cls._connect_once = _connect_once
+        return self
+
+    def remove(self):
+        self._cls._connect_once = self._orig
+
+    def activation_of_conn(self, conn_index: int):
+        for rec in self.activations:
+            last = rec.get("last_conn", len(self.world.accessory.conns))
+            if rec["first_conn"] <= conn_index < last:
+                return rec
+        return None
